@@ -53,8 +53,8 @@ def _shape(node):
 
 # the skeleton the hand models in coq/theories/Model/C14_Norm.v were written against: (file, qualified name) -> ordered tests
 SKELETON = {
-    ('base/vectors.py', 'unitvec'): ['if:_ > K * _eps'],
-    ('base/vectors.py', 'unitvec_norm'): ['if:_ > K * _eps'],
+    ('base/vectors.py', 'unitvec'): ['if:_ >= K * _eps'],
+    ('base/vectors.py', 'unitvec_norm'): ['if:_ >= K * _eps'],
     ('base/vectors.py', 'iszerovec'): ['ret:np.linalg.norm(_) < tol * _eps'],
     ('base/vectors.py', 'iszero'): ['ret:abs(_) < tol * _eps'],
     ('base/vectors.py', 'unittwist'): ['if:iszerovec(_, tol=tol)', 'if:iszerovec(_)'],
@@ -201,6 +201,8 @@ def read_consts(ctx):
 def _extract(funcs, T):
     def cmp_thr(fname, i=0):
         node = T[fname][i][2]
+        while isinstance(node, ast.UnaryOp) and isinstance(node.op, ast.Not):    # `not (n < thr)`: the operator is tied by the bridge
+            node = node.operand
         if not isinstance(node, ast.Compare):
             raise ConstError(f"{fname}: test {i} is not a comparison")
         return _thr_of_compare(funcs[fname], node)
@@ -531,6 +533,9 @@ def build(ctx, th):
             sampler=vec0_sampler(4, tq), note='Quaternion.unit() against the same model')
     g.model('m_qunit_UnitQuaternion', V4i, 'O:V4', coq='m_qunit', module=None, num_fn=opt(lambda q: UnitQuaternion([float(x) for x in q]).vec),
             sampler=vec0_sampler(4, tq), note='UnitQuaternion(4-element list) constructor against the same model')
+    g.model('m_qunit_UnitQuaternion_ndarray', V4i, 'O:V4', coq='m_qunit', module=None,
+            num_fn=opt(lambda q: UnitQuaternion(np.asarray(q, float)).vec), sampler=vec0_sampler(4, tq),
+            note='UnitQuaternion(ndarray of 4 numbers) constructor against the same model (normalised since fix d0fc1b2)')
     g.model('m_qunit_UnitQuaternion_Nx4', V4i, 'O:V4', coq='m_qunit', module=None,
             num_fn=opt(lambda q: UnitQuaternion(np.vstack([np.asarray(q, float), [0.0, 3.0, 0.0, 4.0]])).data[0]),
             sampler=vec0_sampler(4, tq), note='UnitQuaternion(N x 4 array) constructor (row 0 of 2) against the same model')
@@ -720,6 +725,16 @@ class Oracle:
             v = rand_unit(rng) * log_uniform(rng, 1e-6, 1e6)
             r = base.unitvec_norm(v)
             self.ok('norm-returned', 'unitvec_norm', 'nonzero', abs(r[1] - np.linalg.norm(v)) / np.linalg.norm(v), TOL, v)
+        # unitvec / unitvec_norm return None exactly for the vectors iszerovec calls zero (fix 4dbd011), incl. norm == 10 eps
+        for site, f in (('unitvec', base.unitvec), ('unitvec_norm', base.unitvec_norm)):
+            for m in [10 * EPS, float(np.nextafter(10 * EPS, 0)), float(np.nextafter(10 * EPS, 1)), 9 * EPS, 11 * EPS, 50 * EPS, 100 * EPS,
+                      101 * EPS, 0.0, 1e-300] + [log_uniform(rng, 1e-17, 1e-13) for _ in range(40)]:
+                v = np.eye(3)[rng.integers(3)] * m
+                r = f(v)
+                self.ok('None-iff-iszerovec', site, 'near-threshold', 0.0 if (r is None) == bool(base.iszerovec(v)) else 1.0, 0.5, v)
+                if r is not None:
+                    u = np.asarray(r[0] if isinstance(r, tuple) else r, float)
+                    self.ok('valid', site, 'near-threshold', abs(np.linalg.norm(u) - 1), TOL, v)
         # zero inputs: None / ValueError, not NaN
         self.ok('zero-gives-None', 'unitvec', 'zero', 0.0 if base.unitvec(np.zeros(3)) is None else 1.0, 0.5, np.zeros(3))
         self.ok('zero-gives-None', 'unitvec_norm', 'zero', 0.0 if base.unitvec_norm(np.zeros(3)) is None else 1.0, 0.5, np.zeros(3))
@@ -806,8 +821,14 @@ class Oracle:
                         continue
                     U2, F0 = np.asarray(U2, float), np.asarray(F0, float)
                     self.ok('valid', site, case, self.twist_valid(U, thr, nv), TOL, S)
-                    scale = np.linalg.norm(S) / max(np.linalg.norm(U), 1e-300)
-                    self.ok('direction', site, case, np.max(np.abs(U * scale - S)) / np.linalg.norm(S), TOL, S)
+                    if case == 'w-above':
+                        scale = np.linalg.norm(S) / max(np.linalg.norm(U), 1e-300)
+                        dres = np.max(np.abs(U * scale - S)) / np.linalg.norm(S)
+                    else:
+                        # irrotational by the library's test: the direction that must be kept is that of v (the
+                        # rotational part is regarded as zero; whether it is scaled or zeroed is not prescribed here)
+                        dres = np.max(np.abs(U[:nv] / max(np.linalg.norm(U[:nv]), 1e-300) - v / np.linalg.norm(v)))
+                    self.ok('direction', site, case, dres, TOL, S)
                     self.ok('idempotent', site, case, np.max(np.abs(U2 - U)) / max(1.0, np.max(np.abs(U))), TOL, S)
                     self.ok('fixed', site, 'valid-input:' + case, np.max(np.abs(F0 - V0)) / max(1.0, np.max(np.abs(V0))), TOL, V0)
                 if dim == 3:
